@@ -102,7 +102,9 @@ def check_run(rep, r, pc, stab, crit):
         d, ev = roles[role]
         ok = d.get('cat') == 'Binary' or (d.get('cat') == 'Integer' and d.get('low') == {} and d.get('up') == pconst(1))
         rep.check(ok, 'C05.R2', ev.where, 'variable %s is 0/1 [%s]' % (role, cfg), got='cat=%s' % d.get('cat'), want='Binary', construct='domain of %s' % role, loc=ev.loc)
-        rep.check(not ev.sym_ifs and len([c for c in ev.loops]) == 2, 'C05.R2', ev.where, '%s is declared for every pair [%s]' % (role, cfg),
+        from ..shapes import all_pairs_chain
+        ap = all_pairs_chain(tuple((c.binder, TRUE) for c in ev.loops if c.kind == 'for'))
+        rep.check(not ev.sym_ifs and ap is not None, 'C05.R2', ev.where, '%s is declared for every pair [%s]' % (role, cfg),
                   got=[show(c.cond) for c, _ in ev.sym_ifs], want='unconditional, per pair', construct='%s conditional' % role, loc=ev.loc)
 
 
